@@ -81,7 +81,8 @@ func (e *Exec) verifyFunction(fn *ssa.Function, sp *FuncSpec) {
 		for _, en := range sp.Ensures {
 			g, err := e.evalSpecBool(en.Expr, env)
 			if err != nil {
-				e.errorf("%s: ensures %s: %v", name, en.Label, err)
+				e.notes = appendUnique(e.notes, fmt.Sprintf("%s: ensures %s: %v", name, en.Label, err))
+				e.oblige(st2, name+"/post:"+en.Label, en.Props, BoolLit(false), fmt.Sprintf("contract clause cannot be evaluated on the current code: %v", err))
 				continue
 			}
 			e.oblige(st2, name+"/post:"+en.Label, en.Props, g, en.Src)
